@@ -128,10 +128,11 @@ def slug(s):
     return re.sub(r'[^A-Za-z0-9_.=+-]+', '_', s)[:110]
 
 
-def run_replay(check, case, overlay, scratch, conf, timeout_s=300, hashseed='0', extra=None):
+def run_replay(check, case, overlay, scratch, conf, timeout_s=300, hashseed='0', extra=None, prior=None, prior_seed=0, prior_tier='quick'):
     out = os.path.join(scratch, 'replay-%d.json' % int(time.time() * 1000))
     spec = {'check': check, 'tier': 'quick', 'seed': 0, 'mode': 'replay', 'case': case, 'out': out,
-            'scratch': os.path.join(scratch, 'rp%d' % (int(time.time() * 1000) % 100000))}
+            'scratch': os.path.join(scratch, 'rp%d' % (int(time.time() * 1000) % 100000)),
+            'prior': prior or [], 'prior_seed': prior_seed, 'prior_tier': prior_tier}
     spec.update(extra or {})
     p = spawn(spec, overlay, hashseed)
     hung = wait_all([p], timeout_s)
@@ -186,7 +187,8 @@ def main(argv=None):
 
     if args.replay:
         rp = json.load(open(args.replay))
-        r = run_replay(check, rp['case'], overlay, scratch, conf, extra=extra_spec)
+        r = run_replay(check, rp['case'], overlay, scratch, conf, extra=extra_spec, timeout_s=900, prior=rp.get('prior_run_indices'),
+                       prior_seed=rp.get('verif_seed', 0), prior_tier=rp.get('tier', 'quick'))
         sigs = [v['signature'] for v in r.get('violations', [])]
         if r.get('hang') or r.get('crash'):
             print('replay: worker %s' % ('hung' if r.get('hang') else 'crashed: ' + r.get('stderr', '')[-500:]))
@@ -469,6 +471,24 @@ def main(argv=None):
                 rec['case'] = v['original_case']
                 rec['minimised_ops'] = v['original_ops']
                 rec['note'] = 'minimised history did not reproduce in a fresh interpreter; replay file holds the original history'
+        if sig not in sigs and v.get('prior_indices'):
+            # still not: the failure depends on histories that ran earlier in the same interpreter.  Replay the run
+            # after a suffix of the histories its worker had executed before it (shortest suffix that reproduces).
+            pri = v['prior_indices']
+            for k in [1, 4, 16, 64, len(pri)]:
+                suffix = pri[-k:]
+                r = run_replay(check, v.get('original_case') or v['case'], overlay, scratch, conf, extra=extra_spec, timeout_s=900,
+                               prior=suffix, prior_seed=seed, prior_tier=args.tier)
+                sigs = [x['signature'] for x in r.get('violations', [])]
+                if sig in sigs:
+                    rec['case'] = v.get('original_case') or v['case']
+                    rec['minimised_ops'] = v['original_ops']
+                    rec['prior_run_indices'] = suffix
+                    rec['note'] = ('depends on state left behind by earlier histories in the same interpreter: the replay first re-runs '
+                                   'the %d histories with the listed run indices (VERIF_SEED=%d, tier=%s), then this one' % (len(suffix), seed, args.tier))
+                    break
+                if k >= len(pri):
+                    break
         if sig in sigs:
             rec['replay_confirmed'] = True
             rec['replay_digest'] = r['digest']
